@@ -175,6 +175,15 @@ pub fn real_walk(arch: &str, regs: &[(String, u64)], valid: &str, stackbase: u64
             let v = mk_valid(&c, valid);
             (MinidumpRawContext::Arm64(c), v, Cpu::Arm64, Os::Linux)
         }
+        // the pre-2016 arm64 layout: same registers and aliases, its own copy of the unwinder (arm64_old.rs)
+        "arm64_old" => {
+            let mut c = format::CONTEXT_ARM64_OLD::default();
+            for (k, v) in regs {
+                c.set_register(k, *v).expect("arm64 reg");
+            }
+            let v = mk_valid(&c, valid);
+            (MinidumpRawContext::OldArm64(c), v, Cpu::Arm64, Os::Linux)
+        }
         "arm" => {
             let mut c = format::CONTEXT_ARM::default();
             for (k, v) in regs {
@@ -258,6 +267,7 @@ pub fn real_walk(arch: &str, regs: &[(String, u64)], valid: &str, stackbase: u64
             MinidumpRawContext::X86(c) => c.get_register_always(n) as u64,
             MinidumpRawContext::Amd64(c) => c.get_register_always(n),
             MinidumpRawContext::Arm64(c) => c.get_register_always(n),
+            MinidumpRawContext::OldArm64(c) => c.get_register_always(n),
             MinidumpRawContext::Arm(c) => c.get_register_always(n) as u64,
             MinidumpRawContext::Mips(c) => c.get_register_always(n),
             _ => panic!("arch"),
